@@ -177,12 +177,19 @@ fn update_file_content_inner(file_name: &str, content: &str) {
         let mut resolver = WasmModuleResolver::new();
         parse_and_bind(&mut resolver, &file_name, content)
     });
-    if let Ok(f) = res {
-        BUNDLER.with(|b| {
-            let mut b = b.borrow_mut();
-            b.files.insert(file_name, f);
-        })
-    }
+    BUNDLER.with(|b| {
+        let mut b = b.borrow_mut();
+        match res {
+            Ok(f) => {
+                b.files.insert(file_name, f);
+            }
+            Err(_) => {
+                // the new text does not parse: forget the module parsed from the old text, so that the
+                // next build reads the file again and reports what a fresh process would report
+                b.files.remove(&file_name);
+            }
+        }
+    })
 }
 
 #[cfg(feature = "beff_verif")]
